@@ -1,8 +1,8 @@
 // ===== prelude/segment.rs: stand-in for codeq::{Segment<Crc32fast>, Offset, Size} (ASSUMED contracts of the dependency) =====
 pub struct Offset(pub u64);
 pub struct Size(pub u64);
-impl core::ops::Deref for Size { type Target = u64; fn deref(&self) -> &u64 { &self.0 } }
-impl core::ops::Deref for Offset { type Target = u64; fn deref(&self) -> &u64 { &self.0 } }
+impl core::ops::Deref for Size { type Target = u64; fn deref(&self) -> (r: &u64) ensures *r == self.0 { &self.0 } }
+impl core::ops::Deref for Offset { type Target = u64; fn deref(&self) -> (r: &u64) ensures *r == self.0 { &self.0 } }
 #[derive(Clone, Copy, PartialEq, Eq)]
 pub struct Segment { pub offset: u64, pub size: u64 }
 impl Segment {
